@@ -103,6 +103,33 @@ FAMILIES += _logic.FAMILIES
 from . import c05_arith as _arith
 FAMILIES += _arith.FAMILIES
 
+# dependency tables: which propagators are woken when a variable changes (Propagators::on_bound_change) against the
+# model's trigger lists (PropDefs.trig), for the random models of every group plus linear rows with zero coefficients
+# and repeated variables (seeded change C01c narrowed the trigger list of the linear propagators to non-zero
+# coefficients; propagation results alone rarely show it).  Correspondence only.
+def gen_deps(tier, rng):
+    import random as _r
+    cases = []
+    for f in list(FAMILIES):
+        if f.sub == "prop" and "random" in f.name:
+            cs = f.gen(tier, _r.Random(rng.random()))
+            cases += [c for c in cs if " sched " not in c][: (1500 if tier == "quick" else 30000)]
+    for _ in range(1500 if tier == "quick" else 30000):
+        nv = rng.randint(2, 4)
+        doms = "|".join(rng.choice(["0..3", "-2..2", "0..1", "1,3,4"]) for _ in range(nv))
+        props = []
+        for _ in range(rng.randint(1, 3)):
+            k = rng.randint(1, 4)
+            xs = [rng.randrange(nv) for _ in range(k)]
+            cs = [rng.choice([0, 0, 1, -1, 2]) for _ in xs]
+            kind = rng.choice(["lineq", "linle", "linne", "lineqr", "linler", "linner"])
+            p = "%s %s %s %d" % (kind, ",".join(map(str, cs)), ",".join("x%d" % x for x in xs), rng.randint(-2, 4))
+            if kind.endswith("r"): p += " x%d" % rng.randrange(nv)
+            props.append(p)
+        cases.append(" ; ".join([doms] + props))
+    return cases
+FAMILIES.append(Family("dependency_tables", "deps", gen_deps, nontrivial=lambda c, i: i.startswith("deps") and any(ch.isdigit() for ch in i)))
+
 # quick tier: the two largest exhaustive families (group Global, 1.1M cases each) are thinned to every 4th case so
 # that the check stays near one minute; the thorough tier enumerates them completely
 def _thin(fam, k=4):
